@@ -130,6 +130,24 @@ def c05_4(ctx, r):
     r.check(okc, "prepare_for_resubmission clears is_complete", key_of(pf, "clears is_complete"), pf.loc(), "prepare_for_resubmission no longer clears is_complete")
     # show-status: only offers try-submit-jobs on an incomplete submission
     ss = ctx.fn("show_status.show_status", "C05.4")
+    # ... and what it compares with HpcJobStatus.NONE is a status (HpcManager.check_status hands back the status field)
+    from ..lib import only_return
+
+    hc = ctx.fn("HpcManager.check_status", "C05.4")
+    rx = only_return(ctx, hc)
+    cmp_sites = [n for n in iter_own(ss.node) if isinstance(n, ast.Compare) and any("HpcJobStatus.NONE" in ctx.src(c) for c in n.comparators)]
+    if cmp_sites:
+        okst = False
+        if isinstance(rx, ast.Attribute) and rx.attr == "status":
+            base = rx.value
+            rn = [n for n in ctx.cfg(hc).nodes if n.kind == "stmt" and isinstance(n.ast, ast.Return)]
+            base = ctx.guards(hc).expand(base, rn[0]) if isinstance(base, ast.Name) and rn else base
+            site = ctx.cg.site_of(hc, base) if isinstance(base, ast.Call) else None
+            okst = site is not None and any(ctx.ix.functions[q].name == "check_status" for q in site.targets() if q in ctx.ix.functions)
+        r.check(okst, "HpcManager.check_status returns the status of the interface's answer", key_of(hc, "returns status"), hc.loc(),
+                f"HpcManager.check_status returns `{ctx.src(rx) if rx is not None else None}` (rendered {render(ctx, hc, rx) if rx is not None else None}), which show-status compares with HpcJobStatus.NONE: "
+                "the comparison can never be equal, so show-status never detects that all recorded batches are gone and never offers / runs try-submit-jobs",
+                "the documented recovery, also offered by show-status")
     from .common import spawn_sites
 
     for s in spawn_sites(ctx, ss, "jade try-submit-jobs"):
@@ -327,3 +345,54 @@ def c05_13(ctx, r):
     from .c18 import c18_3
 
     c18_3(ctx, r)
+
+
+def placed_not_reported_blocked(ctx, r, rid):
+    """_make_batch scans the candidates several times (try_add_blocked_jobs): a job recorded as blocked by an earlier
+    pass and placed by a later one must leave the blocked collection - otherwise the round reports it both submitted
+    and blocked, the status update asserts under the cluster lock after sbatch already ran, the crashed-round marker
+    stays and every later round refuses."""
+    from .c01 import _try_append_test
+
+    mb = ctx.fn("HpcSubmitter._make_batch", rid)
+    cfg = ctx.cfg(mb)
+    site, ta = _try_append_test(ctx, mb)
+    # collections the 'blocked' branch inserts into: X[job.name] = job under is_job_blocked() True
+    blocked = set()
+    for n in cfg.nodes:
+        a = n.ast
+        if n.kind == "stmt" and isinstance(a, ast.Assign) and isinstance(a.targets[0], ast.Subscript) and isinstance(a.targets[0].value, ast.Name):
+            if any(p and "is_job_blocked" in f for f, p in guard_forms(ctx, mb, n)):
+                blocked.add(a.targets[0].value.id)
+    if not blocked:
+        raise AnalysisError(rid, "no collection of blocked jobs found in _make_batch")
+    loops = [l for l in ctx.enclosing(mb, site.node, (ast.For, ast.While))]
+    multi = len(loops) >= 2
+    for x in sorted(blocked):
+        removed = False
+        for n in cfg.nodes:
+            for c in cfg.calls_at(n):
+                if isinstance(c.func, ast.Attribute) and c.func.attr in ("pop", "discard", "remove") and isinstance(c.func.value, ast.Name) and c.func.value.id == x:
+                    if any(p and f.startswith("call:_BatchJobs.try_append(") for f, p in guard_forms(ctx, mb, n)):
+                        removed = True
+            if n.kind == "stmt" and isinstance(n.ast, ast.Delete) and any(isinstance(t, ast.Subscript) and ctx.src(t.value) == x for t in n.ast.targets):
+                if any(p and f.startswith("call:_BatchJobs.try_append(") for f, p in guard_forms(ctx, mb, n)):
+                    removed = True
+        # alternative: the blocked list handed back is filtered by the placed-names set
+        filtered = any(isinstance(n2, ast.comprehension) and x in ast.unparse(n2.iter) and any("not in" in ast.unparse(i) for i in n2.ifs) for n2 in ast.walk(mb.node))
+        r.check(removed or filtered or not multi, f"a job placed by a later pass leaves `{x}`", key_of(mb, f"placed job stays in {x}"), mb.loc(site.node),
+                f"the scan is multi-pass and a placed job is never removed from `{x}`: a dependent listed before its blocker is first recorded as blocked, then placed, and the round reports it both submitted and blocked - "
+                "Cluster._update_job_status asserts under the cluster lock after the batch was handed to the HPC, the marker and the lock file stay behind and no later round can run",
+                "one try-submit-jobs ... either hands at least one new batch to the HPC or completes the submission")
+
+
+@rule(P, "C05.14", "T3", "within one batch construction a job is reported either placed or blocked, never both", min_obligations=1)
+def c05_14(ctx, r):
+    placed_not_reported_blocked(ctx, r, "C05.14")
+
+
+@rule(P, "C05.15", "T1+T13", "a constructed batch is always handed off, never parked in a queue nobody polls (its jobs would be 'submitted' without ever running)", min_obligations=5)
+def c05_15(ctx, r):
+    from .c01 import c01_8
+
+    c01_8(ctx, r)
